@@ -310,6 +310,10 @@ func recoverImage(img crashImage, temp keyPair, allowed map[string]bool) (sig, w
 			}
 		}
 	}
+	if p := safely(func() { sw.S.VerifRotate() }); p != "" {
+		abandon = true
+		return "recovered-server-panics-on-rotation", firstLine(p)
+	}
 	// what the recovered server writes next must leave a directory that starts again (appends after a repaired
 	// tail must be aligned), with everything it held after recovery
 	before, _ := snapPersistKey(sw.S.VerifSnapshot())
